@@ -3,6 +3,7 @@
    layouts (Pinned/, committed) were generated once from the audited commit 236b7b1. *)
 From Coq Require Import ZArith List Bool String.
 Require Import GV.Lib.Bytes GV.Model.Accessor GV.Model.TableWf GV.Proofs.TableP GV.Proofs.ShippedP GV.Proofs.C18P
+               GV.Proofs.WireFilesP
                GV.Gen.AllTables GV.Gen.PinCheck.
 Import ListNotations.
 Open Scope Z_scope.
@@ -35,6 +36,12 @@ Proof. vm_compute. reflexivity. Qed.
 Theorem c18_pinned_layout_unchanged : forall p, In p pinned_tables ->
   exists c, In c all_tables /\ m_file c = m_file p /\ layout_eqb p c = true.
 Proof. exact pinned_unchanged. Qed.
+
+(* Module names agree with the config-file naming a spa reports: for every shipped platform x config x log
+   combination (895), the FILES reply built from the pack's name and the declared versions decodes (C04 codec)
+   to a platform key and versions whose module names are exactly the shipped modules'. *)
+Theorem c18_files_reply_resolves : combos_resolve = true /\ ncombos = 895%nat.
+Proof. split; [exact files_reply_resolves | exact ncombos_895]. Qed.
 
 Example c18_nonvacuous : List.length all_tables = 164%nat /\ List.length pinned_tables = 164%nat.
 Proof. split; vm_compute; reflexivity. Qed.
